@@ -8,10 +8,145 @@ From V Require Import Base.UString Base.Json Model.SchemaTypes Model.PyBase Mode
      Spec.StixValid Spec.SchemaRefine Proofs.SchemaBasics Proofs.SchemaValidMono Proofs.SchemaScope
      Proofs.SchemaTime Proofs.SchemaLeaf Proofs.SchemaObject Proofs.SchemaProved Proofs.SchemaKinds
      Proofs.SchemaConstr Proofs.SchemaRefineFacts Proofs.SchemaKnot
-     Proofs.SchemaCovProved Proofs.SchemaCovKinds Proofs.SchemaCovInv Proofs.SchemaCovCons.
+     Proofs.SchemaCovRef Proofs.SchemaCovProved Proofs.SchemaCovKinds Proofs.SchemaCovInv Proofs.SchemaCovInv2 Proofs.SchemaCovCons.
 Import ListNotations.
 
 Local Arguments u : simpl never.
+
+(* ---------- about `run` only ---------- *)
+Lemma run_construct_obj vr ev w pok sok fuel k allow interop kw vrefs o :
+  run vr ev w pok sok fuel (RConstruct k allow interop kw vrefs) = Ok o -> exists inner dfl hc, o = PObject k inner dfl hc.
+Proof.
+  destruct fuel; [discriminate|]. simpl. intros H.
+  destruct (find_class (wclasses w) k) as [c|] eqn:Hfc; try discriminate.
+  destruct (find_class_In _ _ _ Hfc) as [_ Hcid].
+  match type of H with (if ?b then _ else _) = _ => destruct b; try discriminate end.
+  inv_bind H.
+  assert (exists inner' dfl' hc', a = PObject (cid c) inner' dfl' hc') as (inner' & dfl' & hc' & ->).
+  { destruct (cinit c) as [|names| | |vv| |src]; try discriminate; try (eapply construct_generic_cid; eauto; fail).
+    destruct (alookup (u "definition_type") kw) as [dt|]; [|eapply construct_generic_cid; eauto].
+    destruct (alookup (u "definition") kw) as [dv|]; [|eapply construct_generic_cid; eauto].
+    destruct dt as [| | | |t| |]; try discriminate.
+    repeat match type of Ha with
+           | match ?x with _ => _ end = _ => destruct x eqn:?; try discriminate
+           | (if ?b then _ else _) = _ => destruct b eqn:?; try discriminate
+           end.
+    inv_bind Ha.
+    match type of Hab with (if ?b then _ else _) = _ => destruct b; try discriminate end.
+    inv_bind Hab. apply construct_generic_cid in Habb. destruct Habb as (i & dd & h & ->).
+    repeat match goal with |- context [match ?x with _ => _ end] => destruct x end; simpl; eauto. }
+  subst k.
+  destruct (cfamily c); destruct (cver c); try (injection Hb as <-; eauto; fail).
+  repeat match type of Hb with
+         | (if ?b then _ else _) = _ => destruct b
+         | match ?x with _ => _ end = _ => destruct x; try discriminate
+         end; injection Hb as <-; eauto.
+Qed.
+
+(* parse_observable in strict mode is the constructor of the class registered for the type *)
+Lemma run_parse_obs_inv vr ev w pok sok f vv refs d o :
+  run vr ev w pok sok f (RParseObs (Some vv) refs false false d) = Ok o ->
+  exists f' t k, f = S f' /\ assoc t (robservables (reg_of w vv)) = Some k /\
+                 run vr ev w pok sok f' (RConstruct k false false d (Some refs)) = Ok o.
+Proof.
+  destruct f as [|f']; [discriminate|]. simpl. intros H.
+  destruct (alookup (u "type") d) as [ty|]; try discriminate.
+  destruct ty as [| | | |t| |]; try discriminate.
+  unfold class_for in H.
+  destruct (assoc t (robservables (reg_of w vv))) as [k|] eqn:Ea; try discriminate.
+  destruct (amem (u "_valid_refs") d); try discriminate.
+  inv_bind H. match type of Hb with (if ?b then _ else _) = _ => destruct b; try discriminate end.
+  injection Hb as <-. exists f', t, k. auto.
+Qed.
+
+(* a class without class-specific wrapping whose `type` is fixed writes it *)
+Lemma run_construct_typed vr ev w pok sok fuel k allow interop kw vrefs o t :
+  vr_year_pad vr = true ->
+  run vr ev w pok sok fuel (RConstruct k allow interop kw vrefs) = Ok o ->
+  class_typed w k t = true -> typed t o.
+Proof.
+  intros Hpad H Hty. destruct fuel; [discriminate|]. simpl in H. unfold class_typed in Hty.
+  destruct (find_class (wclasses w) k) as [c|] eqn:Hfc; try discriminate.
+  apply andb_true_iff in Hty. destruct Hty as [Hty Hslot]. apply andb_true_iff in Hty. destruct Hty as [Hinit Hnames].
+  destruct (find_slot c (u "type")) as [s|] eqn:Es; try discriminate.
+  destruct (find_slot_spec _ _ _ Es) as [Hs Hname].
+  destruct (skind s) as [| | |fv al| | | | | | | | | | | | | | | | | | | | |] eqn:Ek; try discriminate.
+  destruct (sdef s) eqn:Ed; try discriminate. apply ustr_eqb_eq in Hslot. subst fv.
+  match type of H with (if ?b then _ else _) = _ => destruct b; try discriminate end.
+  inv_bind H.
+  assert (G : exists setting hc, a = PObject (cid c) setting (defaulted_names c setting) hc /\
+                                 alookup (u "type") setting = Some (PJ (JStr t))).
+  { assert (Gen : forall kw' vr', construct_generic vr ev w pok sok
+                    (fun k a i kw => run vr ev w pok sok fuel (RConstruct k a i kw None))
+                    (fun a i d => run vr ev w pok sok fuel (RParse a i None d))
+                    (fun vv refs a d => run vr ev w pok sok fuel (RParseObs (Some vv) refs a false d))
+                    (S fuel) c allow interop kw' [] vr' = Ok a ->
+                  exists setting hc, a = PObject (cid c) setting (defaulted_names c setting) hc /\
+                                     alookup (u "type") setting = Some (PJ (JStr t))).
+    { intros kw' vr' Hg.
+      destruct (construct_generic_model vr ev w _ _ _ Hpad c Hnames _ _ [] ltac:(intros; discriminate) ltac:(reflexivity)
+                                        ltac:(intros; discriminate) pok sok (S fuel) allow interop kw' vr' a eq_refl eq_refl Hg)
+        as (setting & hc & E & _ & HF).
+      exists setting, hc. split; auto. rewrite <- Hname. eapply HF; eauto. }
+    destruct (cinit c); try discriminate Hinit; eapply Gen; eauto. }
+  destruct G as (setting & hc & -> & Hl).
+  assert (Hd : mem_ustr (u "type") (defaulted_names c setting) = false).
+  { rewrite <- Hname. apply defaulted_not_present; auto. unfold always_present. rewrite Ed. apply orb_true_r. }
+  assert (Base : typed t (PObject (cid c) setting (defaulted_names c setting) hc)).
+  { do 4 eexists. split; [reflexivity|]. auto. }
+  destruct (cfamily c); destruct (cver c); try (injection Hb as <-; exact Base).
+  destruct (amem (u "id") kw); [injection Hb as <-; exact Base|].
+  destruct (existsb _ (cidcontrib c)); [|injection Hb as <-; exact Base].
+  destruct (ctype c); try discriminate. injection Hb as <-.
+  do 4 eexists. split; [reflexivity|]. split; auto.
+  rewrite alookup_aset_other by reflexivity. exact Hl.
+Qed.
+
+(* a registered marking class: the object it constructs is never empty, nor is its serialization, and
+   a `tlp` member is not elided *)
+Lemma run_construct_mark vr ev w pok sok fuel k allow interop kw vrefs o :
+  vr_year_pad vr = true ->
+  run vr ev w pok sok fuel (RConstruct k allow interop kw vrefs) = Ok o ->
+  marking_cls_ok w k = true -> mark_ok o.
+Proof.
+  intros Hpad H Hok. destruct fuel; [discriminate|]. simpl in H. unfold marking_cls_ok in Hok.
+  destruct (find_class (wclasses w) k) as [c|] eqn:Hfc; try discriminate.
+  repeat (apply andb_true_iff in Hok; let H2 := fresh "M" in destruct Hok as [Hok H2]).
+  rename Hok into Hinit. rename M2 into Hnames. rename M1 into Hfam. rename M0 into Hex. rename M into Htlp.
+  match type of H with (if ?b then _ else _) = _ => destruct b; try discriminate end.
+  inv_bind H.
+  assert (G : exists setting hc, a = PObject (cid c) setting (defaulted_names c setting) hc /\ Imodel c setting).
+  { assert (Gen : forall kw' vr', construct_generic vr ev w pok sok
+                    (fun k a i kw => run vr ev w pok sok fuel (RConstruct k a i kw None))
+                    (fun a i d => run vr ev w pok sok fuel (RParse a i None d))
+                    (fun vv refs a d => run vr ev w pok sok fuel (RParseObs (Some vv) refs a false d))
+                    (S fuel) c allow interop kw' [] vr' = Ok a ->
+                  exists setting hc, a = PObject (cid c) setting (defaulted_names c setting) hc /\ Imodel c setting).
+    { intros kw' vr' Hg.
+      destruct (construct_generic_model vr ev w _ _ _ Hpad c Hnames _ _ [] ltac:(intros; discriminate) ltac:(reflexivity)
+                                        ltac:(intros; discriminate) pok sok (S fuel) allow interop kw' vr' a eq_refl eq_refl Hg)
+        as (setting & hc & E & HMo & _).
+      eauto. }
+    destruct (cinit c); try discriminate Hinit; eapply Gen; eauto. }
+  destruct G as (setting & hc & -> & (_ & _ & HR & _)).
+  assert (o = PObject (cid c) setting (defaulted_names c setting) hc) as ->.
+  { destruct (cfamily c); try discriminate Hfam; destruct (cver c); injection Hb as <-; reflexivity. }
+  apply existsb_exists in Hex. destruct Hex as [s0 [Hs0 Hr0]].
+  pose proof (HR s0 Hs0 Hr0) as Ham. apply amem_alookup in Ham. destruct Ham as [x0 Hx0].
+  pose proof (alookup_In _ _ _ Hx0) as Hin0.
+  split.
+  - rewrite encode_PObject. simpl ptruthy.
+    assert (Hk : In (sname s0, x0) (filter (kept false (defaulted_names c setting)) setting)).
+    { apply filter_In. split; auto. unfold kept. cbn [fst orb].
+      rewrite (defaulted_not_present c Hnames s0 Hs0); auto. unfold always_present. rewrite Hr0. reflexivity. }
+    destruct setting; [destruct Hin0|].
+    destruct (filter _ _) eqn:Ef; [destruct Hk|]. reflexivity.
+  - intros k' inner dfl hc' E. injection E as _ _ <- _.
+    apply mem_ustr_false. unfold defaulted_names. intros Hin. apply in_map_iff in Hin. destruct Hin as [s [Hn Hf]].
+    apply filter_In in Hf. destruct Hf as [Hs Hc]. apply andb_true_iff in Hc. destruct Hc as [Hnr _].
+    rewrite forallb_forall in Htlp. specialize (Htlp s Hs). rewrite Hn, ustr_eqb_refl in Htlp. cbn [negb orb] in Htlp.
+    rewrite Htlp in Hnr. discriminate.
+Qed.
 
 (* Proofs/SchemaObject.v:facts_good with the constraint verdict given for the one object at hand *)
 Section Good2.
@@ -81,28 +216,36 @@ Section Knot2.
     end.
 
   (* the generic constructor on a covered class *)
-  Lemma generic_ok2 f n c kwargs vrefs o :
+  Lemma generic_ok2_pre f n c kwargs pre vrefs o :
     (forall r o, req_strict r = true -> req_scope r = true -> run vr ev w pok sok f r = Ok o -> result_ok2 n r o) ->
     find_class (wclasses w) (cid c) = Some c ->
     class_wf c = true ->
     forallb (fun s => kind_proved2 w (class_proved2 n w) (skind s)) (cslots c) = true ->
     forallb (constr_proved2 c) (ext_constr c ++ ccons c) = true ->
     dict_scope kwargs = true ->
+    (* what the class __init__ wrapped *)
+    (forall sc, find_class (wclasses sp) (cid c) = Some sc -> class_refine_failures c sc = [] ->
+                forall m x, alookup m pre = Some x ->
+                            match x with PJ _ => False | _ => True end /\ entry_ok sp pok sc m x /\ pval_has_custom x = false) ->
+    (forall m x, alookup m pre = Some x -> tnice x) ->
+    (forall s, In s (cslots c) -> pj_kind (skind s) = true -> alookup (sname s) pre = None) ->
+    (forall m x, alookup m pre = Some x -> mark_ok x) ->
     construct_generic vr ev w pok sok
       (fun k a i kw => run vr ev w pok sok f (RConstruct k a i kw None))
       (fun a i d => run vr ev w pok sok f (RParse a i None d))
       (fun vv refs a d => run vr ev w pok sok f (RParseObs (Some vv) refs a false d))
-      (S f) c false false kwargs [] vrefs = Ok o ->
+      (S f) c false false kwargs pre vrefs = Ok o ->
     exists sc setting,
       class_refine_failures c sc = [] /\
       o = PObject (cid c) setting (defaulted_names c setting) false /\
-      facts vr sp pok c sc setting /\ Itime c setting /\
-      (forall st, facts vr sp pok c sc st -> Itime c st ->
+      facts vr sp pok c sc setting /\ Imodel c setting /\
+      (forall st, facts vr sp pok c sc st -> Imodel c st ->
                   good sp pok (cid c) (PObject (cid c) st (defaulted_names c st) false)).
   Proof.
-    intros IH Hfc Hwf Hkinds Hcons Hsc H.
+    intros IH Hfc Hwf Hkinds Hcons Hsc Hpre0 Hpre_t Hpre_pj Hpre_mark H.
     destruct (find_class_In _ _ _ Hfc) as [Hin _].
     destruct (world_refines_class _ _ _ Href Hin) as [sc [Hfs Hcrf]].
+    pose proof (Hpre0 sc Hfs Hcrf) as Hpre.
     destruct (crf_parts _ _ Hcrf) as (Hhead & _ & Hslots & Hreq & Hcc).
     destruct (header_ok_parts _ _ Hhead) as [Hver Hfam].
     destruct (class_wf_parts _ Hwf) as (Hnames & Hcn & Hdc & Hdconst).
@@ -112,13 +255,22 @@ Section Knot2.
     set (ro := fun vv refs a d => run vr ev w pok sok f (RParseObs (Some vv) refs a false d)) in *.
     assert (IHrc : forall k d o', class_proved2 n w k = true -> dict_scope d = true -> rc k false false d = Ok o' -> good sp pok k o').
     { intros k d o' Hk Hd Hr. unfold rc in Hr. apply (IH (RConstruct k false false d None) o'); auto. }
+    assert (IHro : forall vv refs d o', dict_scope d = true -> ro vv refs false d = Ok o' ->
+               exists t k, assoc t (robservables (reg_of w vv)) = Some k /\
+                           (class_typed w k t = true -> typed t o') /\ (class_proved2 n w k = true -> good sp pok k o')).
+    { intros vv refs d o' Hd Hr. unfold ro in Hr.
+      destruct (run_parse_obs_inv _ _ _ _ _ _ _ _ _ _ Hr) as (f' & t & k & Ef & Hassoc & Hrun).
+      exists t, k. split; auto. split.
+      - intros Hty. eapply run_construct_typed; eauto.
+      - intros Hk. destruct (run_construct_obj _ _ _ _ _ _ _ _ _ _ _ _ Hrun) as (inner & dfl & hc & ->).
+        exact (IH (RParseObs (Some vv) refs false false d) _ eq_refl Hd Hr k inner dfl hc eq_refl Hk). }
     assert (Hslots' : forall s, In s (cslots c) ->
                exists s', find_slot sc (sname s) = Some s' /\ kind_refines (skind s) (skind s') = true /\
                           sound_kind vr w sp pok rc rp ro (skind s) (skind s')).
     { intros s Hs. destruct (Hslots s Hs) as [s' [Hf Hk]]. exists s'. split; auto. split; auto.
       rewrite forallb_forall in Hkinds. eapply kind_sound2; eauto. }
     assert (Hcon : forall fuel setting,
-               Inv sp pok sc setting -> Itime c setting ->
+               Inv sp pok sc setting -> Imodel c setting ->
                constr_all (eval_constr vr pok fuel c setting)
                           ((match cfamily c with FExt => [CAtLeastOneDefault] | _ => [] end) ++ ccons c) = Ok tt ->
                exists n0, forallb (jconstr pok n0 sc (members c setting))
@@ -138,21 +290,44 @@ Section Knot2.
       destruct (forall_exists_bound (fun n0 k' => jconstr pok n0 sc (members c setting) k' = true) _
                   (fun n1 n2 k' Hle => jconstr_mono pok n1 n2 sc (members c setting) k' Hle) Each) as [N HN].
       exists N. apply forallb_forall. exact HN. }
-    assert (Hpre : forall (m : ustring) (x : pval), alookup m (@nil (ustring * pval)) = Some x ->
-                   match x with PJ _ => False | _ => True end /\ entry_ok sp pok sc m x /\ pval_has_custom x = false).
-    { intros m x Hx. discriminate Hx. }
-    destruct (construct_generic_facts vr ev w sp pok sok rc rp ro Hpad c sc Hnames Hslots' Hdconst Hreq kwargs Hsc []
+    destruct (construct_generic_facts vr ev w sp pok sok rc rp ro Hpad c sc Hnames Hslots' Hdconst Hreq kwargs Hsc pre
                 Hpre (S f) kwargs vrefs o eq_refl H)
       as (setting & -> & F).
-    assert (HT : Itime c setting).
-    { assert (Hpt : forall (m : ustring) (x : pval), alookup m (@nil (ustring * pval)) = Some x -> tnice x)
-        by (intros m x Hx; discriminate Hx).
-      destruct (construct_generic_time vr ev w rc rp ro Hpad c Hnames _ _ [] Hpt pok sok (S f) false false kwargs vrefs _
-                                       eq_refl eq_refl H) as (st' & dfl' & hc' & E & HT).
-      injection E as <- _ _. exact HT. }
+    assert (HT : Imodel c setting).
+    { destruct (construct_generic_model vr ev w rc rp ro Hpad c Hnames _ _ pre Hpre_t Hpre_pj Hpre_mark
+                                        pok sok (S f) false false kwargs vrefs _
+                                        eq_refl eq_refl H) as (st' & hc' & E & HT & _).
+      injection E as <- _. exact HT. }
     exists sc, setting. split; [auto|split; [auto|split; [exact F|split; [exact HT|]]]].
     intros st Fst HTst. apply (facts_good2 vr sp pok c sc Hnames Hreq Hfs st Fst).
     destruct Fst as (HInv & _ & _ & fuel & Hall). eapply Hcon; eauto.
+  Qed.
+
+  Lemma generic_ok2 f n c kwargs vrefs o :
+    (forall r o, req_strict r = true -> req_scope r = true -> run vr ev w pok sok f r = Ok o -> result_ok2 n r o) ->
+    find_class (wclasses w) (cid c) = Some c ->
+    class_wf c = true ->
+    forallb (fun s => kind_proved2 w (class_proved2 n w) (skind s)) (cslots c) = true ->
+    forallb (constr_proved2 c) (ext_constr c ++ ccons c) = true ->
+    dict_scope kwargs = true ->
+    construct_generic vr ev w pok sok
+      (fun k a i kw => run vr ev w pok sok f (RConstruct k a i kw None))
+      (fun a i d => run vr ev w pok sok f (RParse a i None d))
+      (fun vv refs a d => run vr ev w pok sok f (RParseObs (Some vv) refs a false d))
+      (S f) c false false kwargs [] vrefs = Ok o ->
+    exists sc setting,
+      class_refine_failures c sc = [] /\
+      o = PObject (cid c) setting (defaulted_names c setting) false /\
+      facts vr sp pok c sc setting /\ Imodel c setting /\
+      (forall st, facts vr sp pok c sc st -> Imodel c st ->
+                  good sp pok (cid c) (PObject (cid c) st (defaulted_names c st) false)).
+  Proof.
+    intros IH Hfc Hwf Hkinds Hcons Hsc H.
+    eapply (generic_ok2_pre f n c kwargs [] vrefs o IH Hfc Hwf Hkinds Hcons Hsc); [ | | | | exact H].
+    - intros sc _ _ m x Hx. discriminate Hx.
+    - intros m x Hx. discriminate Hx.
+    - intros; reflexivity.
+    - intros m x Hx. discriminate Hx.
   Qed.
 
   Theorem knot2 : forall fuel n r o,
@@ -174,16 +349,67 @@ Section Knot2.
       assert (Hgen : exists sc setting,
                  class_refine_failures c sc = [] /\
                  a = PObject (cid c) setting (defaulted_names c setting) false /\
-                 facts vr sp pok c sc setting /\ Itime c setting /\
-                 (forall st, facts vr sp pok c sc st -> Itime c st ->
+                 facts vr sp pok c sc setting /\ Imodel c setting /\
+                 (forall st, facts vr sp pok c sc st -> Imodel c st ->
                              good sp pok (cid c) (PObject (cid c) st (defaulted_names c st) false))).
-      { unfold init_proved2 in Pinit. destruct (cinit c) eqn:Ei; simpl in Pinit; try discriminate.
+      { unfold init_proved2 in Pinit.
+        destruct (cinit c) as [|names| | |mv| |src] eqn:Ei; cbn [init_proved orb] in Pinit; try discriminate.
         - eapply generic_ok2; eauto.
         - eapply generic_ok2; [eauto|eauto|eauto|eauto|eauto| |exact Ha]. apply dict_scope_filter. auto.
         - eapply generic_ok2; [eauto|eauto|eauto|eauto|eauto| |exact Ha].
           match goal with |- dict_scope (if ?b then _ else _) = true => destruct b; auto end.
           apply dict_scope_aset; auto.
         - eapply generic_ok2; eauto.
+        - (* v21 MarkingDefinition.__init__ *)
+          destruct mv; try discriminate. apply andb_true_iff in Pinit. destruct Pinit as [Pmk Pdef].
+          destruct (find_slot c (u "definition")) as [sd|] eqn:Esd; try discriminate.
+          destruct (skind sd) as [| | | | | | | | | | | | | | | | | | | | |mvv| | |] eqn:Ekd; try discriminate.
+          destruct mvv; try discriminate.
+          destruct (find_slot_spec _ _ _ Esd) as [Hsd Hnd].
+          destruct (alookup (u "definition_type") kwargs0) as [dt|] eqn:Edt; [|eapply generic_ok2; eauto].
+          destruct (alookup (u "definition") kwargs0) as [dv|] eqn:Edv; [|eapply generic_ok2; eauto].
+          destruct dt as [| | | |t| |]; try discriminate.
+          unfold class_for in Ha. destruct (assoc t (rmarkings (reg_of w V21))) as [mcid|] eqn:Emc; try discriminate.
+          inv_bind Ha. destruct dv as [| | | | | |dd0]; simpl in Haa; try discriminate. injection Haa as <-.
+          match type of Hab with (if ?b then _ else _) = _ => destruct b; try discriminate end.
+          inv_bind Hab. rename a0 into mo.
+          assert (Hdd : dict_scope dd0 = true) by (exact (dict_scope_lookup _ _ _ Hsc Edv)).
+          rewrite forallb_forall in Pmk. pose proof (Pmk (t, mcid) (assoc_In _ _ _ Emc)) as Pm. cbn [fst snd] in Pm.
+          apply andb_true_iff in Pm. destruct Pm as [Pcp Pok].
+          destruct (vr_flags vr Hvr) as (_ & _ & _ & _ & _ & Hpad & _ & _).
+          pose proof (IH m (RConstruct mcid false false dd0 None) mo eq_refl Hdd Haba Pcp) as Gm.
+          pose proof (run_construct_mark _ _ _ _ _ _ _ _ _ _ _ _ Hpad Haba Pok) as Mm.
+          destruct Gm as (minner & mdfl & -> & nm & Hnm).
+          destruct (class_wf_parts _ P1) as (Hnames & _).
+          eapply (generic_ok2_pre f m c (aremove (u "definition") kwargs0) [(u "definition", PObject mcid minner mdfl false)]);
+            [eauto|eauto|eauto|eauto|eauto| | | | | |exact Habb].
+          + apply dict_scope_aremove. auto.
+          + intros sc Hfs Hcrf k x Hx. cbn [alookup] in Hx.
+            destruct (ustr_eqb k (u "definition")) eqn:Ek; try discriminate. apply ustr_eqb_eq in Ek. subst k.
+            injection Hx as <-. split; [exact I|]. split; [|reflexivity].
+            split; [exact I|].
+            destruct (crf_parts _ _ Hcrf) as (_ & _ & Hslots & _ & _).
+            destruct (Hslots sd Hsd) as [s' [Hf' Hkr]]. rewrite Hnd in Hf'. rewrite Ekd in Hkr.
+            exists s'. split; auto.
+            destruct (skind s') as [| | | | | | | | | | | | | | | | | | | | |mv'| | |] eqn:Ek'; simpl in Hkr; try discriminate.
+            destruct mv'; try discriminate.
+            exists (S nm). rewrite encode_PObject in *.
+            change (existsb (fun kc => valid_obj sp pok nm (snd kc)
+                                        (JObj (map (fun kv => (fst kv, encode false (snd kv))) (filter (kept false mdfl) minner))))
+                            (rmarkings (s_reg sp V21)) = true).
+            apply existsb_exists. exists (t, mcid). split; [|exact Hnm].
+            unfold s_reg. rewrite <- (world_refines_reg_of _ _ V21 Href). apply assoc_In. exact Emc.
+          + intros k x Hx. cbn [alookup] in Hx. destruct (ustr_eqb k (u "definition")); try discriminate.
+            injection Hx as <-. exact I.
+          + intros s Hs Hpj. cbn [alookup]. destruct (ustr_eqb (sname s) (u "definition")) eqn:Ek; auto.
+            apply ustr_eqb_eq in Ek.
+            assert (s = sd).
+            { pose proof (find_self_nodup (cslots c) s (unodup_NoDup _ Hnames) Hs) as A.
+              pose proof (find_self_nodup (cslots c) sd (unodup_NoDup _ Hnames) Hsd) as B.
+              rewrite Ek, <- Hnd in A. rewrite A in B. injection B as ->. reflexivity. }
+            subst s. rewrite Ekd in Hpj. discriminate.
+          + intros k x Hx. cbn [alookup] in Hx. destruct (ustr_eqb k (u "definition")); try discriminate.
+            injection Hx as <-. exact Mm.
         - eapply generic_ok2; eauto. }
       destruct Hgen as (sc & setting & Hcrf & -> & F & HT & Hgood).
       pose proof (Hgood setting F HT) as G0.
@@ -217,8 +443,8 @@ Section Knot2.
         - intros k Hk.
           rewrite forallb_forall in Wid. specialize (Wid k Hk). apply negb_true_iff in Wid.
           apply mem_ustr_false in Wid. exact Wid. }
-      assert (HTid : Itime c (aset (u "id") (PJ (JStr (t ++ u "--" ++ e_uuid5 ev))) setting)).
-      { apply Itime_aset_other; auto. intros s0 Hs0 Hn0.
+      assert (HTid : Imodel c (aset (u "id") (PJ (JStr (t ++ u "--" ++ e_uuid5 ev))) setting)).
+      { apply Imodel_aset_pj; auto. intros s0 Hs0 Hn0.
         assert (s0 = sid).
         { pose proof (find_self_nodup (cslots c) s0 (unodup_NoDup _ Hnames) Hs0) as A.
           pose proof (find_self_nodup (cslots c) sid (unodup_NoDup _ Hnames) Hsid) as B.
